@@ -206,7 +206,8 @@ PROPS['C09'] = dict(
     note='At the wire (Sends.v): a publish (QoS 0, 1, 2), subscribe or unsubscribe that returns has put on the wire exactly what '
          'the queues owed before, followed by the encoding of the request under the identifier of the handle, and nothing else - on '
          'any transport, however it cuts the writes (C09_publish_on_wire, C09_publish_q0_on_wire, C09_subscribe_on_wire, '
-         'C09_unsubscribe_on_wire; assumption PQ: no PINGREQ is to be queued at the instant of the call). '
+         'C09_unsubscribe_on_wire; assumption PQ: no PINGREQ is to be queued at the instant of the call and the writes take no '
+         'virtual time; C09_*_on_wire_every_transport drop the assumption: the same bytes with at most one PINGREQ inserted). '
          'Trusted: Coq kernel and VM (the non-vacuity example is computed), model incl. the broker-side decoder (my reading of '
          'MQTT 5), extraction, harness, encoder hooks, Python parser. No axioms. Premises of the round-trip theorems: identifiers and '
          'keep-alive fit 16 bits, property values fit their Rust types (props_ok), retain handling <= 2, DISCONNECT properties only '
